@@ -44,12 +44,13 @@ type SrvReq struct {
 }
 
 type SrvConnPlan struct {
-	Reqs      []SrvReq
-	Pipelined bool
-	Writes    []int           // sizes of the client's successive writes over the concatenated request stream
-	Gaps      []time.Duration // pause before each write
-	Skip      bool            // twin runs: this connection is left out
-	AbortMid  bool
+	Reqs       []SrvReq
+	Pipelined  bool
+	Writes     []int           // sizes of the client's successive writes over the concatenated request stream
+	Gaps       []time.Duration // pause before each write
+	Skip       bool            // twin runs: this connection is left out
+	AbortMid   bool
+	StartDelay time.Duration // the client connects this long after the start of the run
 }
 
 type SrvScenario struct {
@@ -253,6 +254,9 @@ func RunSrv(rc *RunCtx, sc *SrvScenario, sched *Tape, seed uint64, twinReplyLens
 		}
 		co := &out.Conns[ci]
 		s.Go(fmt.Sprintf("cli%d", ci), false, func(tk *Task) {
+			if plan.StartDelay > 0 && tk.Sleep("start-delay", plan.StartDelay) == Drained {
+				return
+			}
 			cl, err := ln.Dial()
 			if err != nil {
 				return
